@@ -1,5 +1,6 @@
 import ZoektModel.Basic.Proto
 import ZoektModel.C01.Spec
+import ZoektModel.C01.BTree
 namespace ZoektModel.C01
 open ZoektModel ZoektModel.Proto
 
@@ -116,10 +117,34 @@ def handleSearch (live names contents tree impl : String) : String :=
     | _ => badCase "tree"
   | _, _, _ => badCase "fields"
 
+/-- `btree <B> <v> <sorted ngrams> <queries>`: build + freeze, `find` and `Get` for every query -/
+def handleBtree (b v ngs qs impl : String) : String :=
+  match b.toNat?, v.toNat?, natList? ngs, natList? qs with
+  | some B, some V, some ngs, some qs =>
+    let (t, last) := btBuild B V ngs
+    let shape := "{bucketSize:" ++ toString B ++ "_v:" ++ toString V ++ "}" ++
+      String.join (t.innerKeys.map fun ks => "[" ++ ",".intercalate (ks.map toString) ++ "]")
+    let finds := qs.map fun q => let r := t.find q; s!"{r.1}:{r.2}"
+    let gets := qs.map fun q => match btGet B ngs t last q with | some i => toString i | Option.none => "-1"
+    let model := s!"shape={shape} find={showList id finds} get={showList id gets}"
+    -- the property on the implementation's answers: the index of the ngram in the sorted section, or none
+    let want := qs.map fun q => match ngs.findIdx? (· == q) with | some i => toString i | Option.none => "-1"
+    let implGet := match (fields impl).filter (·.startsWith "get=") with
+      | [g] => some ((g.drop 4).toString)
+      | _ => Option.none
+    match implGet with
+    | Option.none => badCase "impl output"
+    | some g =>
+      if g != showList id want then specFail model "btree-get-differs-from-index"
+      else if !(btOK B ngs t last) then specFail model "btree-invariant"
+      else answer model
+  | _, _, _, _ => badCase "fields"
+
 def handle (line : String) : String :=
   let (inp, impl) := splitCase line
   match fields inp with
   | ["search", live, names, contents, tree] => handleSearch live names contents tree impl
+  | ["btree", b, v, ngs, qs] => handleBtree b v ngs qs impl
   | _ => badCase "op"
 
 def main : IO Unit := runLines handle
